@@ -110,6 +110,15 @@ def len_lower_bound(place, facts):
                 lb = max(lb, {"==": n, "<=": n, "<": n + 1}.get(op, 0))
         if f[0] == "pred" and f[1] == place and f[2] == "is_empty" and f[4] is False:
             lb = max(lb, 1)
+        # v.first() / v.last() known to be Some(..): `v.first() == Some(x)`, `if let Some(x) = v.first()`, `v.first().is_some()`
+        for acc in (".first()", ".last()", ".get(0)"):
+            pa = place + acc
+            if f[0] == "cmp" and f[2] == "==" and ((f[1] == pa and str(f[3]).startswith("Some")) or (f[3] == pa and str(f[1]).startswith("Some"))):
+                lb = max(lb, 1)
+            if f[0] == "letpat" and f[1] == pa and str(f[2]).endswith("Option::Some::{Ctor#0}"):
+                lb = max(lb, 1)
+            if f[0] == "pred" and f[1] == pa and ((f[2] == "is_some" and f[4] is True) or (f[2] == "is_none" and f[4] is False)):
+                lb = max(lb, 1)
     return lb
 
 
